@@ -33,6 +33,7 @@ Rep(prog, p) == SetMin(Close(prog, {p}))          \* the class of a point, named
 \* ---- values by item index (so that a value taken from another symbol shows)
 Pw(i) == <<2, 3, 4, 5, 6, 7, 8, 9>>[i]          \* small (exact 32-bit arithmetic), distinct per item
 UnitOf(i) == << <<Q(3,5), Q(4,5)>>, CJ1, <<Q(4,5), Q(-3,5)>>, C1, <<Q(-4,5), Q(3,5)>>, CNeg(CJ1), <<Q(-3,5), Q(-4,5)>>, CNeg(C1) >>[i]
+Sg(i) == IF i % 3 = 0 THEN -1 ELSE 1            \* source amplitudes of either sign (every third item negative)
 \* the component a symbol denotes (kind and value record of module Circuit); nodes are added by Netlist
 SymComp(k, i) ==
   CASE k = "R" -> [kind |-> "resistor", v |-> [R |-> RI(Pw(i))]]
@@ -44,10 +45,10 @@ SymComp(k, i) ==
     [] k = "sw_open" -> [kind |-> "switch_open", v |-> [x |-> 0]]
     [] k = "sw_closed" -> [kind |-> "switch_closed", v |-> [x |-> 0]]
     [] k = "lline" -> [kind |-> "short_circuit", v |-> [x |-> 0]]
-    [] k = "V" -> [kind |-> "dc_voltage_source", v |-> [V |-> RI(i + 1), R |-> R0]]
-    [] k = "I" -> [kind |-> "dc_current_source", v |-> [I |-> Q(i, 2), G |-> R0]]
-    [] k = "ACV" -> [kind |-> "ac_voltage_source", v |-> [V |-> RI(Pw(i)), R |-> R0, w |-> RI(2), u |-> UnitOf(i)]]
-    [] k = "ACI" -> [kind |-> "ac_current_source", v |-> [I |-> RI(i), G |-> R0, w |-> RI(2), u |-> UnitOf(i)]]
+    [] k = "V" -> [kind |-> "dc_voltage_source", v |-> [V |-> RI(Sg(i) * (i + 1)), R |-> R0]]
+    [] k = "I" -> [kind |-> "dc_current_source", v |-> [I |-> Q(Sg(i) * i, 2), G |-> R0]]
+    [] k = "ACV" -> [kind |-> "ac_voltage_source", v |-> [V |-> RI(Sg(i) * Pw(i)), R |-> R0, w |-> RI(2), u |-> UnitOf(i)]]
+    [] k = "ACI" -> [kind |-> "ac_current_source", v |-> [I |-> RI(Sg(i) * i), G |-> R0, w |-> RI(2), u |-> UnitOf(i)]]
     [] k = "CV" -> [kind |-> "complex_voltage_source", v |-> [V |-> <<RI(i), RI(2)>>, Z |-> C0]]
     [] k = "CI" -> [kind |-> "complex_current_source", v |-> [I |-> <<RI(1), RI(-i)>>, Y |-> C0]]
     [] k \in {"RectV", "TriV", "SawV"} -> [kind |-> "periodic_voltage_source",
